@@ -1,18 +1,46 @@
 from run import Job
 
 META = dict(
-    decided="representation invariant + whole-view postconditions of container operations",
-    not_decided="nothing structural; floating point values are only moved, never computed",
+    decided="representation invariant (well-formedness) preserved and whole-view postconditions (size bookkeeping, old cells preserved, "
+            "new cells zero/appended, deep copies, frames, clean abort / no-op on out-of-range accessors) for container operations",
+    not_decided="nothing structural; operation histories are covered by induction over the per-operation contracts, not enumerated",
     trusted_base=[], assumptions=[])
 
-V = ["vector.c", "memwrapper.c"]
+V = ["vector.c", "memwrapper.c", "numeric.c"]
 FB = dict(unwind=7, defines={"VC_MAXN": "4"}, bound="sizes <= 4, unwind 7")
+UNB = "size symbolic <= 2^20 (machine range), loops closed by loop contracts, no unwinding"
 
-def A(name, enforce, loops=0, **kw):
-    return Job(name, "C14/dvector.c", srcs=V, enforce=enforce, loop_contracts=loops > 0, min_loops=loops, kind="proof",
-               bound="size <= 2^20 (machine range), no unwinding", fallback=FB if loops else None, **kw)
+def A(name, loops=(), replace=(), **kw):
+    return Job(name, "C14/vectors.c", srcs=V, enforce=name, loops=list(loops), min_loops=len(loops), replace=replace, kind="proof",
+               bound=UNB, fallback=FB if loops else None, **kw)
 
 def jobs(tier):
     J = []
-    J.append(A("NewDVector", "NewDVector", loops=2, clause="new vector has the requested size, every cell zero, fresh storage"))
+    for P in ("DVector", "UIVector", "IVector"):
+        J.append(A("init" + P, clause="init: empty vector, NULL data"))
+        J.append(A("New" + P, loops=["New" + P], clause="New: requested size, all cells zero, fresh storage"))
+        J.append(A("Del" + P, clause="Del: frees exactly the struct and its data block"))
+        J.append(A(P + "Append", clause="Append: size+1, last cell = value, old cells preserved"))
+        for n in range(0, 6 if tier == "quick" else 9):
+            J.append(Job(P + "RemoveAt@n=%d" % n, "C14/vectors.c", entry="h_%sRemoveAt_fix" % P, srcs=V + ["stubs/memmove_stub.c"], enforce=P + "RemoveAt", kind="bounded",
+                         defines={"VC_FIXN": str(n)}, unwind=n + 2,
+                         unwindset=["memmove.0:%d" % (8 * n + 2), "memmove.1:%d" % (8 * n + 2)],
+                         bound="size = %d (one solver call per size; memmove of symbolic length over a symbolic-size block is beyond the solver), index and contents symbolic" % n,
+                         clause="RemoveAt: in range -> size-1, prefix preserved, suffix shifted; out of range -> no change"))
+        J.append(A(P + "Extend", loops=[P + "Extend"], replace=["New" + P], clause="Extend: fresh vector = concatenation, deep"))
+        J.append(A("get" + P + "Value", clause="get: returns the cell; out of range -> clean abort"))
+        J.append(A("set" + P + "Value", clause="set: in range -> written, others preserved; out of range -> abort (dvector) / no write"))
+        J.append(A(P + "Set", loops=[P + "Set"], clause="Set: every cell = value"))
+        J.append(A(P + "HasValue", loops=[P + "HasValue"], clause="HasValue: 1 only if no cell matches",
+                   backend="cvc5" if P == "DVector" else "sat"))
+    J.append(A("DVectorResize", loops=["DVectorResize"], clause="Resize: new size, all zero"))
+    J.append(A("UIVectorResize", loops=["UIVectorResize"], clause="Resize: new size, all zero"))
+    J.append(A("DVectorCopy", loops=["DVectorCopy"], clause="Copy: same size, same cells, deep, source unchanged"))
+    J.append(A("UIVectorIndexOf", loops=["UIVectorIndexOf"], clause="IndexOf: first occurrence or -1"))
+    J.append(A("DVectorMinMax", loops=["DVectorMinMax"], clause="MinMax: bounds every cell; empty -> abort; NULL outputs untouched"))
+    J.append(A("DVectNorm", loops=["DVectNorm", "DvectorModule"], clause="DVectNorm: writes only inside nv or aborts"))
+    J.append(A("DvectorModule", loops=["DvectorModule"], clause="read-only scan in bounds"))
+    J.append(A("DVectorDVectorDotProd", loops=["DVectorDVectorDotProd"], clause="read-only scan in bounds (v2 at least as long as v1)"))
+    J.append(A("DVectorMean", loops=["DVectorMean"], clause="frame: only *mean"))
+    J.append(A("DVectorSDEV", loops=["DVectorSDEV", "DVectorMean"], clause="frame: only *sdev"))
     return J
